@@ -459,6 +459,8 @@ class Obligation:
             return True
         neg = Not(formula)
         t0 = time.time()
+        if os.environ.get('VERIF_DEBUG') == 'verify':
+            print('VERIFY %s %s pc=%d' % (self.name, label, len(ex.pc)), flush=True)
         r = ex.solver.check(zbool(neg)) if neg is not True else ex.solver.check()
         self.solver_time += time.time() - t0
         self.nqueries += 1
